@@ -14,6 +14,9 @@ returns of the right errno.
 Not decided: behavioural equality of the two kernels - the property proper."""
 from engine import RuleSet
 import hirq as H
+import mirq as Q
+import pp
+import re
 
 RS = RuleSet(
     'C19',
@@ -1255,3 +1258,54 @@ def r7(cx):
             cx.violation(fn, 'default-action:%s' % name, 'the simulated default action of SIG%s is %s; a real kernel: %s (a script that sends '
                          'itself that signal behaves differently on the two systems)' % (name.upper(), got, want), loc=loc)
     cx.sample({'SignalEffect::of': 'compared with %d reference rows' % len(POSIX_DEFAULT_ACTION)})
+
+
+IS_EXEC = 'yash_env::system::file_system::IsExecutableFile'
+
+
+def executable_file_evidence(F, cx, systems=('yash_env::system::real::RealSystem', 'yash_env::system::r#virtual::VirtualSystem')):
+    """Per system: does is_executable_file test (a) that the file is a regular file, (b) an execute permission?"""
+    out = {}
+    for sysname in systems:
+        root = '<%s as %s>::is_executable_file' % (sysname, IS_EXEC)
+        bodies = F.logical(root)
+        cx.require(bodies, 'impl IsExecutableFile for %s not found' % sysname)
+        regular = perm = False
+        for b in bodies:
+            cx.fn(b.fn)
+            du = Q.DefUse(b)
+            for blk, t in b.calls():
+                n = pp.callee(t)
+                if n.endswith('::is_regular_file'):
+                    regular = True
+                if n.endswith('::has_execute_permission') or n.endswith('::faccessat') or \
+                        (re.search(r'Mode>::(intersects|contains)$', n) and any('EXEC' in str(a.get('cdef') or a.get('c') or '') for a in t['a'])):
+                    perm = True
+                if re.search(r'PartialEq>::eq$|PartialEq::eq$', n) and any('FileType::Regular' in str(a.get('cdef') or a.get('c') or '') for a in t['a']):
+                    regular = True
+            for u in b.live_blocks():
+                ec = Q.edge_condition(F, b, du, u)
+                if ec and ec[0]['k'] == 'discr' and ('FileBody' in (ec[0].get('ty') or '') or 'FileType' in (ec[0].get('ty') or '')):
+                    if any(set(labs) == {('variant', 'Regular')} for labs in ec[1].values()):
+                        regular = True
+        out[sysname] = (regular, perm)
+    return out
+
+
+@RS.rule('C19.R8', 'K-SIBLING', 'is_executable_file: both systems accept only a regular file with an execute permission (a searchable '
+         'directory is not an executable: command search and `command -v` must skip it on both sides)')
+def r8(cx):
+    F = cx.F
+    ev = executable_file_evidence(F, cx)
+    for sysname, (regular, perm) in sorted(ev.items()):
+        short = sysname.split('::')[-1]
+        cx.site('%s::is_executable_file: tests regular file: %s, tests execute permission: %s' % (short, regular, perm))
+        root = '<%s as %s>::is_executable_file' % (sysname, IS_EXEC)
+        if not regular:
+            cx.violation(root, 'accepts-non-regular', '%s::is_executable_file does not test that the file is a regular file%s: with a '
+                         'directory named like the command in an earlier $PATH entry, command search (and `command -v`) stops at the '
+                         'directory on this system and goes on to the real executable on the other'
+                         % (short, '' if all(r for r, _ in ev.values()) else ' while its sibling does'), loc=F.logical(root)[0].loc(F.logical(root)[0].d))
+        if not perm:
+            cx.violation(root, 'accepts-non-executable', '%s::is_executable_file does not test any execute permission' % short,
+                         loc=F.logical(root)[0].loc(F.logical(root)[0].d))
